@@ -34,6 +34,43 @@ def run(root=None):
             out.append(('pyeval-conformance-' + nm, 'noisy', 'not evaluable: %s' % e))
         except Exception as e:
             out.append(('pyeval-conformance-' + nm, 'noisy', 'interpreter crashed: %s: %s' % (type(e).__name__, e)))
+    out += _specialiser(p, ns)
+    return out
+
+
+def _specialiser(p, ns):
+    """sa/specialise.py on the machinery's own wrappers: the specialised tree must contain no call of the helper, and, compiled
+    and run by CPython in place of the wrapper, must return and do exactly what the wrapper does"""
+    import ast
+    from sa.specialise import flat
+    out = []
+    Limits = ns['Limits']
+    for nm, cases in ns['SPECIALISE_CASES']:
+        tag = 'specialise-conformance-' + nm
+        try:
+            f = p.method('Limits', nm)
+            g = flat(p, f)
+            if g is f and not getattr(f, 'inlined', None):       # (the snippets are new to the vocabulary: read in place at load)
+                out.append((tag, 'noisy', 'left as it stands'))
+                continue
+            text = ast.unparse(g.node)
+            left = [w for w in ('_check(', '_check_kind(', '_with(', '_rebinding(', 'SIGN_TABLE', 'operator.', 'lambda ', 'lambda:', 'for ') if w in text]
+            if left:
+                out.append((tag, 'noisy', 'not fully specialised (%s): %s' % (left, text[:300])))
+                continue
+            ns2 = dict(ns)
+            exec(compile(ast.Module([g.node], []), '<specialised>', 'exec'), ns2)     # our own snippet, specialised
+            bad = None
+            for args in cases:
+                a, b = Limits(2, 5), Limits(2, 5)
+                ra = getattr(a, nm)(*args)
+                rb = ns2[nm](b, *args)
+                if not _same(ra, rb) or a.seen != b.seen:
+                    bad = 'args %r: wrapper %r %r, specialised %r %r' % (args, ra, a.seen, rb, b.seen)
+                    break
+            out.append((tag, 'noisy' if bad else 'silent', bad or ''))
+        except Exception as e:
+            out.append((tag, 'noisy', 'crashed: %s: %s' % (type(e).__name__, e)))
     return out
 
 
